@@ -22,7 +22,9 @@ var modelledNames = map[string]bool{
 	"math/bits.TrailingZeros32": false,
 }
 
-func (eng *Engine) isModelled(name string) bool { return modelledNames[name] }
+func (eng *Engine) isModelled(name string) bool {
+	return modelledNames[name] || strings.HasPrefix(name, "sync/atomic.")
+}
 
 var pureExternalPrefixes = []string{"fmt.", "errors.", "log.", "(*log.Logger).", "strconv.", "time.Now", "time.Since", "time.Unix", "(time.Time).", "(time.Duration).",
 	"math.", "strings.", "unicode.", "unicode/utf8.", "os.Getpid", "runtime.", "hash/crc32.", "context.", "math/bits.",
@@ -56,8 +58,51 @@ func (eng *Engine) returnsNonNil(name string) bool {
 
 func (e *Exec) fpUnary(op string, a *Term) *Term { return e.c.App(op, a.sort, a) }
 
+// atomicModel: sync/atomic package-level functions as plain loads and stores (sequential semantics).
+func (e *Exec) atomicModel(st *State, ins ssa.Instruction, name string, args []Val, rtyp types.Type) (Val, bool) {
+	c := e.c
+	op := strings.TrimPrefix(name, "sync/atomic.")
+	call, ok := ins.(ssa.CallInstruction)
+	if !ok || len(args) == 0 {
+		return Val{}, false
+	}
+	pt, ok := call.Common().Args[0].Type().Underlying().(*types.Pointer)
+	if !ok {
+		return Val{}, false
+	}
+	et := pt.Elem()
+	e.assumed["sync/atomic operations treated as plain loads/stores (sequential semantics)"] = true
+	switch {
+	case strings.HasPrefix(op, "Load"):
+		return e.load(st, args[0], et), true
+	case strings.HasPrefix(op, "Store"):
+		e.store(st, args[0], et, args[1].T)
+		return Val{}, true
+	case strings.HasPrefix(op, "Add"):
+		cur := e.load(st, args[0], et).T
+		nv := e.wrap(c.Add(cur, args[1].T), et)
+		e.store(st, args[0], et, nv)
+		return Val{T: nv}, true
+	case strings.HasPrefix(op, "Swap"):
+		cur := e.load(st, args[0], et).T
+		e.store(st, args[0], et, args[1].T)
+		return Val{T: cur}, true
+	case strings.HasPrefix(op, "CompareAndSwap"):
+		cur := e.load(st, args[0], et).T
+		eq := c.Same(cur, args[1].T)
+		e.store(st, args[0], et, c.Ite(eq, args[2].T, cur))
+		return Val{T: eq}, true
+	}
+	return Val{}, false
+}
+
 func (e *Exec) modelled(st *State, ins ssa.Instruction, name string, args []Val, rtyp types.Type) (Val, bool) {
 	c := e.c
+	if strings.HasPrefix(name, "sync/atomic.") && (e.pure == 0 || strings.HasPrefix(name, "sync/atomic.Load")) {
+		if v, ok := e.atomicModel(st, ins, name, args, rtyp); ok {
+			return v, true
+		}
+	}
 	if !modelledNames[name] {
 		return Val{}, false
 	}
